@@ -18,7 +18,7 @@ T = {
          'Every Keyvalues tree up to a node bound and every string up to a length bound over the syntax alphabet (plus each Unicode scalar value once per role) is serialised under all option sets and re-parsed from str / chunks / file object; equality is decided by an independent structural comparison. Small-scope exhaustive, so an escaping gap on either write path cannot hide behind the choice of examples.',
          'harness structural comparator; names restricted to the representable set (no line breaks)', '3/C01'),
  'C02': ('exploration', 'bounded exhaustive enumeration of strings (all strings <= L over the escape alphabet, every Unicode scalar value in 5 contexts) through escape_text then the real Tokenizer',
-         'escape_text followed by the real tokenizer is run on every string up to the length bound over the escape-relevant alphabet and on every Unicode scalar value in fixed contexts, in both multiline modes and embedded in the line forms of four formats; the oracle is exact token equality.',
+         'escape_text followed by the real tokenizer is run on every string up to the length bound over the escape-relevant alphabet and on every Unicode scalar value in fixed contexts, in both multiline modes and embedded in the line forms of four formats, and short strings again at every real writer call site (each followed by its other-case / other-slash spelling) and in interpreters of their own after each of 12 different first calls of the process; the oracle is exact token equality.',
          'alphabet chosen from the ESCAPES table plus neighbours; strings longer than the bound are not covered', '3/C02'),
  'C03': ('exploration', 'exhaustive enumeration of strings x all 128 option sets x all chunkings (delivery schedules) on the real Tokenizer and Keyvalues.parse',
          'Chunk delivery is the schedule: for every string up to the bound and every option combination, every way of cutting the string into chunks is run on the real tokenizer and compared token-for-token (values, line numbers, errors) with the single-string run; totality and a linear step bound (counted character fetches) are checked on every run. Keyvalues.parse is driven over all short sequences of lexical and line-level items.',
